@@ -122,7 +122,10 @@ func (r Row) scanBytes(i int) []byte {
 	case string:
 		return []byte(rv)
 	case []byte:
-		return rv
+		// copy: rv points into the page cache
+		b := make([]byte, len(rv))
+		copy(b, rv)
+		return b
 	default:
 		panic("impossible")
 	}
